@@ -613,9 +613,9 @@ var c14ItemList = c14Items()
 func (p *c14) NumCases(tier string) int {
 	n := (len(c14ItemList)*len(c14OpList)*2 + len(c14ItemList)*2) * len(c14Flavours)
 	if tier == "thorough" {
-		return n + 2000
+		return n + 4000
 	}
-	return n + 200
+	return n + 1000
 }
 
 func readBack(cl adapt.Client) (val.Item, string) {
